@@ -9,6 +9,7 @@ from __future__ import annotations
 
 from . import fingerprint as fp
 from . import gen
+from . import sched
 
 QUERY_OPS = ('select', 'select_one', 'iselect', 'match', 'filter', 'closest')
 
@@ -68,7 +69,8 @@ def run_op(ctx, op):
     key = ctx.keys[op['key']]
     if kind == 'compile':
         obj = sv.compile(key['pattern'], **gen.key_args(key))
-        return fp.fp_compiled(obj)
+        with sched.untraced():
+            return fp.fp_compiled(obj)
 
     d = op['doc']
     tgt = ctx.target(d, op.get('target', -1))
